@@ -168,6 +168,36 @@ def accept_error_case(t, tr, how, n):
     return c
 
 
+def stalled_subscriber_case(t, how, backlog, n):
+    """PUB / XPUB go away while one subscriber's connection is not accepting data and output for it is still buffered: the
+    socket must not linger on it — close() completes at once and EVERY connection, the stalled one included, is released"""
+    sc = wg.Script()
+    sc.sock(1, t)
+    sc.attach(1, 1, "SUB", b"reader")
+    sc.attach(1, 2, "SUB", b"stalled")
+    for p in (1, 2):
+        sc.reveal_msg(p, [b"\x01"])
+    if t == "PUB":
+        sc.add("drain")
+    else:
+        for _ in range(2):
+            f = sc.fut()
+            sc.add(f"recv {f} 1", f"poll {f}", f"drop {f}")
+    sc.add("wire 1", "wire 2", "credit 2 0")
+    for i in range(backlog):
+        f = sc.fut()
+        sc.add(f"send {f} 1 {wg.mtok([b'topic', ('gen', 50000, 70 + i)])}", f"poll {f}", f"drop {f}", "wire 1")
+    if how == "drop":
+        sc.add("dropsock 1")
+    else:
+        f = sc.fut()
+        sc.add(f"close {f} 1", f"poll {f}")
+    sc.add("drain", "halves 1", "halves 2")
+    c = sc.case(f"{t}:{how}:stalled-subscriber-{backlog}#{n}", [how, "stalled-subscriber"])
+    c.expect = (t, ["stalled-subscriber"], how)
+    return c
+
+
 def registration_pending_case(tr, how, n):
     """state `handshake done, registration pending`: a SUB socket announces its subscription set to a new peer BEFORE
     registering it; with a set larger than the transport's buffers and a peer that does not read, the connection stays
@@ -181,6 +211,18 @@ def registration_pending_case(tr, how, n):
     return c
 
 
+def accept_failing_case(t, tr, how, pause, n):
+    """close()/drop issued WHILE accept() keeps failing (descriptor shortage with a client queued on the listener): the call
+    returns, the listener goes away, the accepted peer observes end-of-stream"""
+    peer = netgen.PEER[t]
+    ops = [f"sock 1 {t}", f"bind 1 {tr}", "rawconn 1 ep#0", f"rawhs 1 {peer}", "rawwait 1 hs",
+           "fdhoard", "fdrelease 1", "rawconn 2 ep#0", f"pause {pause}", "close 1" if how == "close" else "dropsock 1",
+           "fdrelease all", "probegone ep#0", "rawwait 1 eof"]
+    c = Case(f"{t}:{how}:net-{tr}-accept-failing-{pause}#{n}", "net", ops, [f"net-{how}", "accept-failing"])
+    c.expect = ("net", t, ["accept-failing"], how)
+    return c
+
+
 def cases(tier, rng):
     out = gen.corpus(ID)
     n = 0
@@ -188,6 +230,14 @@ def cases(tier, rng):
         for how in ("close", "drop"):
             out.append(registration_pending_case(tr, how, n))
             n += 1
+            for pause in (30, 150):
+                out.append(accept_failing_case("PULL", tr, how, pause, n))
+                n += 1
+    for t in ("PUB", "XPUB"):
+        for how in ("close", "drop"):
+            for backlog in (1, 4):
+                out.append(stalled_subscriber_case(t, how, backlog, n))
+                n += 1
     for t in (["PULL", "PUB"] if tier == "quick" else netgen.TYPES9):
         for tr in [x for x in netgen.transports() if x in ("tcp4", "ipc")]:
             for how in ("close", "drop"):
@@ -256,6 +306,9 @@ def oracle(case, lines):
     for op, l in res:
         if op.startswith("poll") and l.startswith("ready ok errs=") and l != "ready ok errs=0":
             return f"close() reported errors: {l}"
+    for i, (op, l) in enumerate(res):
+        if op.startswith("close ") and i + 1 < len(res) and res[i + 1][1] == "pending":
+            return f"close() did not complete at its first poll although nothing it has to wait for was pending: {res[i + 1][1]}"
     for p in (1, 2):
         h = [l for op, l in res if op == f"halves {p}"][-1]
         if h != "halves r=1 w=1":
